@@ -232,6 +232,9 @@ class ParserM(SymVal):
                         return BoundSource(fi, c.__dict__[name], c, self)
                 raise Outside(f'{name} not found')
             return self._callee(name)
+        from pyvc.interp import private_helper
+        ok_, v_ = private_helper(it, self.cls, name, self, self.inlined)
+        if ok_: return v_
         raise Outside(f'parser.{name}')
     def sym_truth(self, it): return True
 
